@@ -331,13 +331,28 @@ class WorkQueue:
         cancel_awaitables: list[Awaitable[Any]],
     ) -> None:
         """Cancel a task with the streams produced by it."""
-        abort_result = task.computation.abort(reason)
+        computation = task.computation
+        abort_result = computation.abort(reason)
         if is_awaitable(abort_result):
             cancel_awaitables.append(abort_result)
         task_node = self._task_nodes.get(task)
         if task_node:
             for child_stream in task_node.child_streams:
                 self._cancel_stream(child_stream, reason, cancel_awaitables)
+        if not task_node or task_node.value is _UNSET:
+            # The task may have been executed early and already completed with
+            # work that has not been integrated into the graph yet (the task was
+            # not started or its success not handled); cancel that work as well.
+            try:
+                result = computation.result()  # the computation is settled now
+            except BaseException:  # noqa: BLE001
+                return  # failed or aborted
+            work = result.work
+            if work:
+                for new_task in work.tasks:
+                    self._cancel_task(new_task, reason, cancel_awaitables)
+                for new_stream in work.streams:
+                    self._cancel_stream(new_stream, reason, cancel_awaitables)
 
     def _cancel_stream(
         self,
